@@ -149,6 +149,38 @@ def histories(ctx, ops, maxlen, nrand, rng, randlen):
     return hs
 
 
+PRISTINE = r'''
+import sys, json, warnings
+import numpy as np
+sys.path.insert(0, %(verif)r)
+from checks import C10
+from vlib import rescorr
+from bluebonnet.flow import FlowProperties, IdealReservoir, SinglePhaseReservoir
+warnings.simplefilter("ignore")
+tb = rescorr.shipped_gas(stride=30)
+fp = FlowProperties({k: v.copy() for k, v in tb.items()}, 8000.0)
+scheds = {0: np.linspace(6000.0, 1500.0, 9), 1: np.linspace(5000.0, 3000.0, 9), 2: np.linspace(7000.0, 500.0, 6)}
+cls = {"IdealReservoir": IdealReservoir, "SinglePhaseReservoir": SinglePhaseReservoir}[sys.argv[1]]
+env = C10.Env(cls, fp, 8, 1000.0, 8000.0, scheds)
+key = json.loads(sys.argv[2])
+val = env.field(key[1:]) if key[0] == "f" else env.rec(key[1:])
+print(json.dumps([float(x).hex() for x in np.asarray(val, float).ravel()]))
+'''
+
+
+def pristine_reference(ctx, cls_name, key):
+    """The same fresh-object computation in a new interpreter process that has done nothing else: what the reference values
+    of this process must equal if results do not depend on what OTHER objects did earlier (class- or module-level state)."""
+    import subprocess
+    import sys
+    env = dict(os.environ)
+    p = subprocess.run([sys.executable, "-c", PRISTINE % dict(verif=core.VERIF), cls_name, json.dumps(list(key))], capture_output=True, text=True, env=env, timeout=300)
+    if p.returncode:
+        ctx.broken.append("pristine-process reference failed: " + p.stderr[-300:])
+        return None
+    return np.array([float.fromhex(h) for h in json.loads(p.stdout.strip().splitlines()[-1])])
+
+
 def run(ctx):
     from bluebonnet.flow import FlowProperties, IdealReservoir, SinglePhaseReservoir
     core.coq_phase(ctx, GEN, PROPS)
@@ -182,6 +214,16 @@ def run(ctx):
                 if not ((isinstance(a, str) and a == b) or same(a, b)):
                     ctx.violations.append(dict(what=f"{cls.__name__}: repeating a call with the same arguments returns a different result",
                                                key="repeat" + cls.__name__, input=dict(cls=cls.__name__, history=h + [h[-1]]), observed="differs"))
+        # the fresh-object references used above, recomputed in pristine interpreter processes (a few keys of each kind)
+        keys = sorted(env.cache, key=str)
+        pick = [k_ for k_ in keys if k_[0] == "f"][:2] + [k_ for k_ in keys if k_[0] == "r"][:: max(1, len([k_ for k_ in keys if k_[0] == "r"]) // 3)][:3]
+        for key in pick:
+            ref = pristine_reference(ctx, cls.__name__, key)
+            if ref is not None and not np.array_equal(ref, np.asarray(env.cache[key], float).ravel(), equal_nan=True):
+                ctx.violations.append(dict(what=f"{cls.__name__}: a fresh object's result depends on what other objects did earlier in the process "
+                                                "(it differs from the same computation in a new interpreter)", key="process-state" + cls.__name__,
+                                           input=dict(cls=cls.__name__, computation=list(key)), observed="differs"))
+        ctx.cov["pristine_process_references"] = ctx.cov.get("pristine_process_references", 0) + len(pick)
         ctx.samples.append(dict(cls=cls.__name__, history=hs[len(hs) // 2], model_outputs=syms[len(hs) // 2]))
     ctx.cov.update(evaluations=total, distinct_nontrivial=total, exhaustive_up_to_length=dict(IdealReservoir=4 if ctx.quick else 5, SinglePhaseReservoir=3 if ctx.quick else 4),
                    rule="all histories up to the stated length over {simulate(A), simulate(B same length), simulate(C other length), "
